@@ -3,370 +3,91 @@
 //! Exhaustive exploration (E1) of builder programs within stated family bounds; every
 //! program is compiled by the real builder and run by the real runner on every input vector
 //! over a value alphabet; oracle = reference semantics (E2, call level and node level).
+//! Two passes over the same code (`pass.rs`): element field = BabyBear (all families) and
+//! = its degree-4 extension (a reduced family list, extension-valued constants and inputs).
 
-use std::sync::atomic::{AtomicU64, Ordering};
-use std::sync::Mutex;
-
-use p3_baby_bear::BabyBear;
-use p3_circuit::{Circuit, Traces};
-use p3_circuit_prover::batch_stark_prover::TablePacking;
-use p3_field::{PrimeCharacteristicRing, PrimeField64};
-use vpcore::serde_json::{Value, json};
-use vpcore::{Ctx, Histo, Report, finish};
-use vpe1::accept::prove_verify_bb1;
-use vpe1::explore::{SeenSet, Stats, explore, input_vectors};
+use vpcore::serde_json::json;
+use vpcore::{Ctx, Report, finish};
 use vpe1::families::families;
-use vpe1::prog::{Materialized, Program, eval_nodes, materialize, node_rels_hold, ref_eval};
+use vpe1::prog::Program;
 
-type F = BabyBear;
+macro_rules! pass_module {
+    ($name:ident, $field:ty, $consts:expr, $values:expr, $show:expr, $prove:expr) => {
+        mod $name {
+            use std::sync::atomic::{AtomicU64, Ordering};
+            use std::sync::Mutex;
 
-fn consts() -> Vec<F> {
-    vec![F::ZERO, F::ONE, F::from_u64(5), F::from_u64(7)]
-}
-/// Input alphabet, shrinking with the number of inputs so that |alphabet|^n stays small.
-fn values_for(n: usize) -> Vec<F> {
-    match n {
-        0..=2 => vec![F::ZERO, F::ONE, F::TWO, F::from_u64(3), F::NEG_ONE],
-        3 => vec![F::ZERO, F::ONE, F::TWO, F::from_u64(3)],
-        4 => vec![F::ZERO, F::ONE, F::from_u64(3)],
-        _ => vec![F::ONE, F::from_u64(3)],
-    }
-}
-fn vectors(n: usize) -> Vec<Vec<F>> {
-    let mut v = input_vectors(&values_for(n), n);
-    if n >= 5 {
-        v.push(vec![F::ZERO; n]);
-        v.push((0..n).map(|i| F::from_u64(2 + i as u64 * 3)).collect());
-    }
-    v
-}
-fn fu(x: &F) -> u64 {
-    x.as_canonical_u64()
-}
+            use p3_baby_bear::BabyBear;
+            use p3_circuit::{Circuit, Traces};
+            #[allow(unused_imports)]
+            use p3_field::{BasedVectorSpace, PrimeCharacteristicRing, PrimeField64};
+            use vpcore::serde_json::{Value, json};
+            use vpcore::{Ctx, Histo, Report};
+            use vpe1::explore::{SeenSet, Stats, explore, input_vectors};
+            use vpe1::prog::{Materialized, Program, eval_nodes, materialize, node_rels_hold, ref_eval};
 
-#[derive(Clone, Debug, PartialEq, Eq)]
-enum Clause {
-    /// builder call returned a node whose mathematical value differs from the call's
-    Api,
-    /// satisfying input, run Ok, some expression's slot holds a different value
-    Value,
-    /// satisfying input, run failed
-    RunFails,
-    /// violated relation, run Ok, and the trace is accepted by prover+verifier
-    UnsatAccepted,
-}
-impl Clause {
-    fn tag(&self) -> &'static str {
-        match self {
-            Clause::Api => "api",
-            Clause::Value => "value",
-            Clause::RunFails => "run_fails",
-            Clause::UnsatAccepted => "unsat_accepted",
-        }
-    }
-}
-
-struct Found {
-    clause: Clause,
-    detail: String,
-    inputs: Vec<u64>,
-}
-
-fn split_inputs(m_pub: usize, v: &[F]) -> (Vec<F>, Vec<F>) {
-    (v[..m_pub].to_vec(), v[m_pub..].to_vec())
-}
-
-fn run_circuit(circuit: &Circuit<F>, pubs: &[F], privs: &[F]) -> Result<Traces<F>, String> {
-    let mut r = circuit.runner();
-    r.set_public_inputs(pubs).map_err(|e| format!("{e:?}"))?;
-    r.set_private_inputs(privs).map_err(|e| format!("{e:?}"))?;
-    r.run().map_err(|e| format!("{e:?}"))
-}
-
-/// Cheap check on every history: call-level value == node-level value of the returned node.
-fn check_api(p: &Program, m: &Materialized<F>, cs: &[F]) -> Option<Found> {
-    // hints make node-level values opaque: compare only where defined
-    for v in vectors(m.n_pub + m.n_priv) {
-        let (pubs, privs) = split_inputs(m.n_pub, &v);
-        let re = ref_eval::<F, F>(p, cs, &pubs, &privs);
-        if re.undefined {
-            continue;
-        }
-        let (nv, undef) = eval_nodes(&m.nodes, &pubs, &privs, &|_| None);
-        if undef {
-            continue;
-        }
-        for (h, e) in m.handles.iter().enumerate() {
-            if let (Some(a), Some(b)) = (re.hv[h], nv[e.0 as usize])
-                && a != b
-            {
-                return Some(Found {
-                    clause: Clause::Api,
-                    detail: format!(
-                        "handle h{h} (node e{}) denotes {} but the node evaluates to {}",
-                        e.0,
-                        fu(&a),
-                        fu(&b)
-                    ),
-                    inputs: v.iter().map(fu).collect(),
-                });
+            pub type F = $field;
+            pub fn consts() -> Vec<F> {
+                $consts
             }
-        }
-    }
-    None
-}
-
-struct Counters {
-    runs: AtomicU64,
-    sat_runs: AtomicU64,
-    unsat_runs: AtomicU64,
-    undefined: AtomicU64,
-    unsat_ok_runs: AtomicU64,
-    proofs: AtomicU64,
-    build_err: AtomicU64,
-    values_compared: AtomicU64,
-    /// remaining prove+verify calls for clause (ii)
-    proof_budget: AtomicU64,
-    unsat_ok_not_proved: AtomicU64,
-}
-
-/// Full check of one compiled program. Returns the first violation per clause kind.
-fn check_program(
-    p: &Program,
-    cs: &[F],
-    cnt: Option<&Counters>,
-    outcomes: Option<&Histo>,
-) -> Result<Vec<Found>, String> {
-    let m = materialize::<F, F>(p, cs)?;
-    let n_pub = m.n_pub;
-    let n_in = m.n_pub + m.n_priv;
-    let handles = m.handles.clone();
-    let nodes = m.nodes.clone();
-    let connects = m.connects.clone();
-    let circuit = match m.builder.build() {
-        Ok(c) => c,
-        Err(e) => {
-            if let Some(c) = cnt {
-                c.build_err.fetch_add(1, Ordering::Relaxed);
+            /// Input alphabet, shrinking with the number of inputs so that |alphabet|^n stays small.
+            pub fn values_for(n: usize) -> Vec<F> {
+                let all: Vec<F> = $values;
+                match n {
+                    0..=2 => all,
+                    3 => all[..4].to_vec(),
+                    4 => vec![all[0], all[1], all[3]],
+                    _ => vec![all[1], all[3]],
+                }
             }
-            if let Some(o) = outcomes {
-                o.add("build_err");
+            pub fn fu(x: &F) -> String {
+                ($show)(x)
             }
-            return Err(format!("build: {e:?}"));
+            fn prove_verify(circuit: &Circuit<F>, traces: &Traces<F>) -> vpe1::accept::Verdict {
+                ($prove)(circuit, traces)
+            }
+            include!("pass.rs");
         }
     };
-    let mut found: Vec<Found> = vec![];
-    let mut proved_once = false;
-    let have = |c: &Clause, found: &Vec<Found>| found.iter().any(|f| f.clause == *c);
-    for v in vectors(n_in) {
-        let (pubs, privs) = split_inputs(n_pub, &v);
-        let re = ref_eval::<F, F>(p, cs, &pubs, &privs);
-        if re.undefined {
-            if let Some(c) = cnt {
-                c.undefined.fetch_add(1, Ordering::Relaxed);
-            }
-            continue;
-        }
-        let run = run_circuit(&circuit, &pubs, &privs);
-        if let Some(c) = cnt {
-            c.runs.fetch_add(1, Ordering::Relaxed);
-            if re.sat {
-                c.sat_runs.fetch_add(1, Ordering::Relaxed);
-            } else {
-                c.unsat_runs.fetch_add(1, Ordering::Relaxed);
-            }
-        }
-        if let Some(o) = outcomes {
-            o.add(match (re.sat, run.is_ok()) {
-                (true, true) => "sat_run_ok",
-                (true, false) => "sat_run_err",
-                (false, true) => "unsat_run_ok",
-                (false, false) => "unsat_run_err",
-            });
-        }
-        let iv: Vec<u64> = v.iter().map(fu).collect();
-        match (re.sat, run) {
-            (true, Err(e)) => {
-                if !have(&Clause::RunFails, &found) {
-                    found.push(Found {
-                        clause: Clause::RunFails,
-                        detail: format!("all asserted relations hold but run() = Err({e})"),
-                        inputs: iv,
-                    });
-                }
-            }
-            (true, Ok(tr)) => {
-                if have(&Clause::Value, &found) {
-                    continue;
-                }
-                // call level
-                let mut bad: Option<String> = None;
-                for (h, e) in handles.iter().enumerate() {
-                    let Some(want) = re.hv[h] else { continue };
-                    let Some(wid) = circuit.expr_to_widx.get(e) else {
-                        continue;
-                    };
-                    let got = tr.witness_trace.get_value(*wid).copied();
-                    if let Some(c) = cnt {
-                        c.values_compared.fetch_add(1, Ordering::Relaxed);
-                    }
-                    if got != Some(want) {
-                        bad = Some(format!(
-                            "h{h} (e{} -> w{}) denotes {} but the run assigned {:?}",
-                            e.0,
-                            wid.0,
-                            fu(&want),
-                            got.map(|g| fu(&g))
-                        ));
-                        break;
-                    }
-                }
-                // node level (opaque outputs read back from the run)
-                if bad.is_none() {
-                    let opaque = |i: usize| -> Option<F> {
-                        circuit
-                            .expr_to_widx
-                            .get(&p3_circuit::ExprId(i as u32))
-                            .and_then(|w| tr.witness_trace.get_value(*w).copied())
-                    };
-                    let (nv, undef) = eval_nodes(&nodes, &pubs, &privs, &opaque);
-                    if !undef {
-                        for (i, val) in nv.iter().enumerate() {
-                            let Some(want) = val else { continue };
-                            let Some(wid) = circuit.expr_to_widx.get(&p3_circuit::ExprId(i as u32))
-                            else {
-                                continue;
-                            };
-                            let got = tr.witness_trace.get_value(*wid).copied();
-                            if let Some(c) = cnt {
-                                c.values_compared.fetch_add(1, Ordering::Relaxed);
-                            }
-                            if got != Some(*want) {
-                                bad = Some(format!(
-                                    "node e{i} ({:?}) -> w{} denotes {} but the run assigned {:?}",
-                                    nodes[i],
-                                    wid.0,
-                                    fu(want),
-                                    got.map(|g| fu(&g))
-                                ));
-                                break;
-                            }
-                        }
-                        if bad.is_none() && !node_rels_hold(&nodes, &connects, &nv) {
-                            bad = Some("run Ok but a connect / bool check does not hold on the assigned values".into());
-                        }
-                    }
-                }
-                if let Some(d) = bad {
-                    found.push(Found {
-                        clause: Clause::Value,
-                        detail: d,
-                        inputs: iv,
-                    });
-                }
-            }
-            (false, Ok(tr)) => {
-                if let Some(c) = cnt {
-                    c.unsat_ok_runs.fetch_add(1, Ordering::Relaxed);
-                }
-                if have(&Clause::UnsatAccepted, &found) {
-                    continue;
-                }
-                // the run did not fail: the trace must not be provable.
-                // One proof per program, within the global proof budget.
-                if proved_once {
-                    continue;
-                }
-                if let Some(c) = cnt {
-                    if c.proof_budget
-                        .fetch_update(Ordering::Relaxed, Ordering::Relaxed, |b| b.checked_sub(1))
-                        .is_err()
-                    {
-                        c.unsat_ok_not_proved.fetch_add(1, Ordering::Relaxed);
-                        continue;
-                    }
-                    c.proofs.fetch_add(1, Ordering::Relaxed);
-                }
-                proved_once = true;
-                let verdict = prove_verify_bb1(&circuit, &tr, &TablePacking::default());
-                if let Some(o) = outcomes {
-                    o.add(&format!("unsat_run_ok/{}", verdict.short()));
-                }
-                if verdict.accepted() {
-                    found.push(Found {
-                        clause: Clause::UnsatAccepted,
-                        detail: "an asserted relation is violated, run() = Ok and the proof verifies".into(),
-                        inputs: iv,
-                    });
-                }
-            }
-            (false, Err(_)) => {}
-        }
-    }
-    Ok(found)
 }
 
-/// Delete calls one at a time while the same clause keeps failing.
-fn minimise(p: &Program, clause: &Clause, cs: &[F]) -> Program {
-    let fails = |q: &Program| -> bool {
-        if *clause == Clause::Api {
-            return materialize::<F, F>(q, cs)
-                .ok()
-                .and_then(|m| check_api(q, &m, cs))
-                .is_some();
-        }
-        matches!(check_program(q, cs, None, None), Ok(f) if f.iter().any(|x| x.clause == *clause))
-    };
-    let mut cur = p.clone();
-    loop {
-        let mut improved = false;
-        for j in (0..cur.calls.len()).rev() {
-            if let Some(q) = vpe1::prog::remove_call(&cur, j)
-                && fails(&q)
-            {
-                cur = q;
-                improved = true;
-                break;
-            }
-        }
-        if !improved {
-            return cur;
-        }
-    }
-}
+pass_module!(
+    d1,
+    BabyBear,
+    vec![F::ZERO, F::ONE, F::from_u64(5), F::from_u64(7)],
+    vec![F::ZERO, F::ONE, F::TWO, F::from_u64(3), F::NEG_ONE],
+    |x: &F| format!("{}", x.as_canonical_u64()),
+    |c: &Circuit<F>, t: &Traces<F>| vpe1::accept::prove_verify_bb1(c, t, &p3_circuit_prover::batch_stark_prover::TablePacking::default())
+);
+
+pass_module!(
+    d4,
+    p3_field::extension::BinomialExtensionField<BabyBear, 4>,
+    {
+        let e = |c: [u64; 4]| F::from_basis_coefficients_slice(&c.map(BabyBear::from_u64)).unwrap();
+        vec![F::ZERO, F::ONE, e([5, 0, 1, 0]), e([7, 3, 0, 2])]
+    },
+    {
+        let e = |c: [u64; 4]| F::from_basis_coefficients_slice(&c.map(BabyBear::from_u64)).unwrap();
+        vec![F::ZERO, F::ONE, e([0, 1, 0, 0]), e([2, 3, 5, 7]), F::NEG_ONE]
+    },
+    |x: &F| format!("{:?}", <F as BasedVectorSpace<BabyBear>>::as_basis_coefficients_slice(x).iter().map(|c| c.as_canonical_u64()).collect::<Vec<_>>()),
+    |c: &Circuit<F>, t: &Traces<F>| vpe1::accept::prove_verify_bb4(c, t)
+);
 
 fn main() {
     vpcore::install_quiet_panic_hook();
     let ctx = Ctx::from_args("C02", "model_checking");
-    let cs = consts();
     let report = Report::new();
 
     if let Some(path) = &ctx.replay {
         let r = vpcore::load_replay(path);
         let p: Program = vpcore::serde_json::from_value(r["program"].clone())
             .unwrap_or_else(|e| vpcore::machinery_error(&format!("bad replay: {e}")));
-        println!("replaying: {}", p.show());
-        if let Ok(m) = materialize::<F, F>(&p, &cs) {
-            println!("nodes: {:?}\nconnects: {:?}", m.nodes, m.connects);
-            if let Ok(c) = m.builder.build() {
-                for op in &c.ops {
-                    println!("  op {op:?}");
-                }
-                println!("  public_rows {:?} private_rows {:?} rewrite {:?}", c.public_rows, c.private_input_rows, c.witness_rewrite);
-            }
-        }
-        let m = materialize::<F, F>(&p, &cs).unwrap();
-        if let Some(f) = check_api(&p, &m, &cs) {
-            println!("  [{}] inputs={:?} {}", f.clause.tag(), f.inputs, f.detail);
-            report.violation(format!("api:{}", p.show()), f.detail, json!({"program": p}));
-        }
-        for f in check_program(&p, &cs, None, None).unwrap_or_default() {
-            println!("  [{}] inputs={:?} {}", f.clause.tag(), f.inputs, f.detail);
-            report.violation(
-                format!("{}:{}", f.clause.tag(), p.show()),
-                f.detail,
-                json!({"program": p, "inputs": f.inputs}),
-            );
+        if r["pass"].as_str().unwrap_or("") == "d4:" {
+            d4::replay_pass(&p, &report, "d4:");
+        } else {
+            d1::replay_pass(&p, &report, "");
         }
         let cov = json!({"states":1,"transitions":1,"traces_validated_against_impl":1,"samples":[p.show()],"replay":true});
         finish(&ctx, cov, vec![], &report);
@@ -376,132 +97,37 @@ fn main() {
     if let Some(f) = ctx.opt("family") {
         fams = families(true).into_iter().chain(families(false)).filter(|x| x.name == f).collect();
     }
-    let seen_keys = SeenSet::default();
-    let cnt = Counters {
-        runs: AtomicU64::new(0),
-        sat_runs: AtomicU64::new(0),
-        unsat_runs: AtomicU64::new(0),
-        undefined: AtomicU64::new(0),
-        unsat_ok_runs: AtomicU64::new(0),
-        proofs: AtomicU64::new(0),
-        build_err: AtomicU64::new(0),
-        values_compared: AtomicU64::new(0),
-        proof_budget: AtomicU64::new(if ctx.quick() { 20000 } else { 400000 }),
-        unsat_ok_not_proved: AtomicU64::new(0),
+    // extension-field pass: the small and the staged families
+    let d4_names: &[&str] = if ctx.quick() {
+        &["sum-of-products-3+2", "dedup-chain-4ops-2in", "wide2-k2-c0", "conn3-k2", "bits-k2-c1", "horner-k2-c0"]
+    } else {
+        &["sum-of-products-3+2", "dedup-chain-4ops-2in", "wide2-k2-c0", "conn3-k2", "bits-k2-c2", "horner-k2-c1", "products-2-then-addsub-3", "dup-ops-3-conn2", "wide1-k2-c1"]
     };
-    let outcomes = Histo::new();
-    let samples: Mutex<Vec<Value>> = Mutex::new(vec![]);
-    let raw_violations = AtomicU64::new(0);
-    let minimise_budget = AtomicU64::new(400);
-    let mut fam_reports = vec![];
-    let mut total_hist = 0u64;
-    let mut total_canon = 0u64;
-    let mut all_exhaustive = true;
-
-    let record = |p: &Program, f: Found| {
-        raw_violations.fetch_add(1, Ordering::Relaxed);
-        let (q, minimised) = if minimise_budget
-            .fetch_update(Ordering::Relaxed, Ordering::Relaxed, |b| b.checked_sub(1))
-            .is_ok()
-        {
-            (minimise(p, &f.clause, &cs), true)
-        } else {
-            (p.clone(), false)
-        };
-        let key = format!("{}:{}", f.clause.tag(), q.show());
-        report.violation(
-            key,
-            format!("[{}] {} — {}", f.clause.tag(), q.show(), f.detail),
-            json!({"program": q, "found_in": p, "inputs": f.inputs, "clause": f.clause.tag(),
-                   "detail": f.detail, "minimised": minimised}),
-        );
-    };
-
-    for (fi, fam) in fams.iter().enumerate() {
-        let stats = Stats::default();
-        // pruning is per family: the subtree below a state depends on the family's bounds
-        let seen_prune = SeenSet::default();
-        // each family may use the budget up to a proportional mark
-        let stop_at = 0.93; let _ = fi; // families run smallest first; whatever does not fit is cut and reported
-        let t0 = ctx.elapsed_s();
-        explore::<F, F>(
-            fam,
-            &cs,
-            &ctx,
-            stop_at,
-            &seen_keys,
-            &seen_prune,
-            &stats,
-            &|p, m| {
-                if let Some(f) = check_api(p, m, &cs) {
-                    record(p, f);
-                }
-            },
-            &|p, _m| {
-                match check_program(p, &cs, Some(&cnt), Some(&outcomes)) {
-                    Ok(found) => {
-                        for f in found {
-                            record(p, f);
-                        }
-                    }
-                    Err(_) => {}
-                }
-                let mut s = samples.lock().unwrap();
-                if s.len() < 6 && p.calls.len() >= 3 {
-                    s.push(json!(p.show()));
-                }
-            },
-        );
-        let h = stats.histories.load(Ordering::Relaxed);
-        let c = stats.canonical.load(Ordering::Relaxed);
-        let to = stats.timed_out.load(Ordering::Relaxed);
-        total_hist += h;
-        total_canon += c;
-        all_exhaustive &= !to;
-        fam_reports.push(json!({
-            "family": fam.name, "bounds": fam, "histories": h, "new_canonical_programs": c,
-            "pruned_subtrees": stats.pruned_subtrees.load(Ordering::Relaxed),
-            "exhaustive": !to, "wall_s": ctx.elapsed_s() - t0,
-        }));
-        eprintln!(
-            "family {} histories={} canonical={} exhaustive={} t={:.1}s",
-            fam.name,
-            h,
-            c,
-            !to,
-            ctx.elapsed_s() - t0
-        );
-    }
-
+    let d4_fams: Vec<vpe1::Family> = fams.iter().filter(|f| d4_names.contains(&f.name.as_str())).cloned().collect();
+    let only = ctx.opt("pass").unwrap_or("both").to_string();
+    let (pb1, pb4) = if ctx.quick() { (20000, 3000) } else { (400000, 60000) };
+    let c1 = if only != "d4" { d1::run_pass(&ctx, &report, &fams, "", 0.78, pb1) } else { json!({"states":0,"transitions":0,"runs":0,"samples":[],"exhaustive":true}) };
+    let c4 = if only != "d1" { d4::run_pass(&ctx, &report, &d4_fams, "d4:", 0.95, pb4) } else { json!({"states":0,"transitions":0,"runs":0,"samples":[],"exhaustive":true}) };
+    let n = |v: &vpcore::serde_json::Value, k: &str| v[k].as_u64().unwrap_or(0);
+    let mut samples = c1["samples"].as_array().cloned().unwrap_or_default();
+    samples.extend(c4["samples"].as_array().cloned().unwrap_or_default());
     let cov = json!({
-        "states": total_canon,
-        "transitions": total_hist,
-        "traces_validated_against_impl": cnt.runs.load(Ordering::Relaxed),
-        "samples": *samples.lock().unwrap(),
+        "states": n(&c1, "states") + n(&c4, "states"),
+        "transitions": n(&c1, "transitions") + n(&c4, "transitions"),
+        "traces_validated_against_impl": n(&c1, "runs") + n(&c4, "runs"),
+        "samples": samples,
         "state_definition": "a state is a builder program (history of builder calls) identified by the H1 snapshot of the real CircuitBuilder (DAG nodes + connect set); a transition appends one builder call; every state is compiled by the real builder and executed by the real runner on every input vector over the value alphabet",
-        "families": fam_reports,
-        "exhaustive": all_exhaustive,
-        "input_alphabet_by_arity": (0..6).map(|n| values_for(n).iter().map(fu).collect::<Vec<_>>()).collect::<Vec<_>>(),
-        "const_alphabet": cs.iter().map(fu).collect::<Vec<_>>(),
-        "runs": cnt.runs.load(Ordering::Relaxed),
-        "runs_satisfying": cnt.sat_runs.load(Ordering::Relaxed),
-        "runs_violating_a_relation": cnt.unsat_runs.load(Ordering::Relaxed),
-        "inputs_skipped_zero_divisor": cnt.undefined.load(Ordering::Relaxed),
-        "unsat_runs_that_returned_ok": cnt.unsat_ok_runs.load(Ordering::Relaxed),
-        "proofs_attempted": cnt.proofs.load(Ordering::Relaxed),
-        "programs_with_unsat_ok_run_not_proved_budget": cnt.unsat_ok_not_proved.load(Ordering::Relaxed),
-        "programs_rejected_by_build": cnt.build_err.load(Ordering::Relaxed),
-        "expression_values_compared": cnt.values_compared.load(Ordering::Relaxed),
-        "outcome_histogram": outcomes.to_json(),
-        "raw_violating_cases": raw_violations.load(Ordering::Relaxed),
+        "exhaustive": c1["exhaustive"].as_bool().unwrap_or(false) && c4["exhaustive"].as_bool().unwrap_or(false),
+        "pass_babybear_d1": c1,
+        "pass_babybear_ext4": c4,
     });
     finish(
         &ctx,
         cov,
         vec![
             "reference semantics (vpe1::prog::ref_eval / eval_nodes) is the specification of expression values".into(),
-            "values range over a 5-element alphabet; program structure is exhaustive within each family's bounds".into(),
-            "clause (ii) uses the repository's prover+verifier (BabyBear, D=1, default packing) as acceptance oracle".into(),
+            "values range over a 5-element alphabet per element field; program structure is exhaustive within each family's bounds".into(),
+            "clause (ii) uses the repository's prover+verifier (BabyBear, D=1 / D=4, default packing, test-grade FRI parameters) as acceptance oracle".into(),
         ],
         &report,
     );
